@@ -44,6 +44,72 @@ ExcBestProbe(s, b) ==
       best == CHOOSE x \in P : \A y \in P : RLeq(ExcObj(s, b, x), ExcObj(s, b, y))
   IN [x |-> best, t |-> ExcObj(s, b, best)]
 
+(* ---- certified optima that are NOT box corners, constructed backwards ---------------------------- *)
+(* Choose d-1 free sources F (strictly inside their bounds, values xF), c = generalised cross product   *)
+(* of their columns of M (so M_F^T c = 0), a sign t and a magnitude m.  Every other source is put at    *)
+(* the bound that the sign of g_j = t * <column j, c> asks for.  Then                                    *)
+(*   Poisson:    b_i = q_i (1 - r_i), r_i = t m c_i / (w_i T)  makes  sum_i w_i M_ij (1 - b_i/q_i)       *)
+(*               = (m/T) g_j: zero on F, >= 0 at lower, <= 0 at upper bounds -> x is the global optimum  *)
+(*               of the (convex) Poisson objective and its capture q is the unique optimal prediction;   *)
+(*   excitation: e(b_i) = e(q_i) - sign(t c_i) * delta  makes all active errors equal to delta with      *)
+(*               0 in sum_i |c_i| sign_i M_i + N_box(x): no feasible point lowers all active errors, so  *)
+(*               the optimal value of the minimax objective is exactly delta.                           *)
+MaxAbsOf(v) == SetMax({Abs(v[i]) : i \in 1..Len(v)})
+BackX(s, F, xF, c, t) ==
+  LET M == NormM(s)
+  IN [j \in 1..Len(M[1]) |->
+        IF \E k \in 1..Len(F) : F[k] = j THEN xF[CHOOSE k \in 1..Len(F) : F[k] = j]
+        ELSE IF t * Dot(Col(M, j), c) < 0 THEN s.ub[j] ELSE s.lb[j]]
+BackRecord(s, w, F, xF, t, m) ==
+  LET M == NormM(s)
+      d == Len(M)
+      c == Cross([k \in 1..(d - 1) |-> Col(M, F[k])], d)
+      x == BackX(s, F, xF, c, t)
+      q == QOf(s, x)
+      T == 4 * MaxAbsOf(c)
+      S == s.D * s.DK
+      Delta == 4 * (S + MaxAbsOf(q))
+      eb == [i \in 1..d |-> RSub(R(q[i], S + q[i]), <<Sgn(t * c[i]), Delta>>)]
+  IN [F |-> F, x |-> x, q |-> q, w |-> w, t |-> t, m |-> m, c |-> c, T |-> T,
+      pbn |-> [i \in 1..d |-> q[i] * (w[i] * T - t * m * c[i])],        \* Poisson target i = pbn[i] / pbd[i]
+      pbd |-> [i \in 1..d |-> w[i] * T * S],
+      eb |-> [i \in 1..d |-> RDiv(eb[i], RSub(<<1, 1>>, eb[i]))],       \* excitation target i (capture units)
+      delta |-> <<1, Delta>>,
+      nactive |-> Cardinality({i \in 1..d : c[i] # 0})]
+BackOK(s, r) ==
+  LET M == NormM(s)
+      d == Len(M)
+      (* T * gradient_j of the Poisson objective, recomputed from the targets *)
+      g(j) == SumTo([i \in 1..d |-> M[i][j] * ((r.q[i] * r.w[i] * r.T - r.pbn[i]) \div r.q[i])], d)
+      free(j) == \E k \in 1..Len(r.F) : r.F[k] = j
+  IN /\ \A i \in 1..d : r.q[i] > 0 /\ r.pbn[i] > 0 /\ (r.q[i] * r.w[i] * r.T - r.pbn[i]) % r.q[i] = 0
+     /\ \A j \in 1..Len(M[1]) :
+           /\ (free(j) => g(j) = 0 /\ s.lb[j] < r.x[j] /\ r.x[j] < s.ub[j])
+           /\ (~free(j) /\ r.x[j] = s.lb[j] /\ s.lb[j] # s.ub[j] => g(j) >= 0)
+           /\ (~free(j) /\ r.x[j] = s.ub[j] /\ s.lb[j] # s.ub[j] => g(j) <= 0)
+     (* excitation targets: positive, and their excitation differs from that of q by exactly delta where active *)
+     /\ \A i \in 1..d : r.eb[i][1] > 0 /\ r.eb[i][2] > 0
+     /\ \A i \in 1..d :
+           LET S == s.D * s.DK
+               eq == R(r.q[i], S + r.q[i])
+               et == RDiv(r.eb[i], RAdd(<<1, 1>>, r.eb[i]))
+           IN IF r.c[i] = 0 THEN et = eq ELSE RSub(eq, et) = <<Sgn(r.t * r.c[i]), r.delta[2]>>
+InnerVals(s, j) == {v \in {s.lb[j] + 1, s.ub[j] - 1} : s.lb[j] < v /\ v < s.ub[j]}
+FreeAssign(s, F) ==
+  {xF \in [1..Len(F) -> UNION {InnerVals(s, F[k]) : k \in 1..Len(F)}] : \A k \in 1..Len(F) : xF[k] \in InnerVals(s, F[k])}
+BackValid(s, F) ==
+  LET M == NormM(s)
+      d == Len(M)
+  IN \E i \in 1..d : Cross([k \in 1..(d - 1) |-> Col(M, F[k])], d)[i] # 0
+BackRecords(s, W) ==
+  LET M == NormM(s)
+      d == Len(M)
+      n == Len(M[1])
+      All == IF ~Bounded(s) \/ d < 2 \/ n < d - 1 THEN {}
+             ELSE UNION { {BackRecord(s, w, F, xF, t, m) : w \in W, xF \in FreeAssign(s, F), t \in {-1, 1}, m \in {1, 2}} :
+                          F \in {G \in KSubsets(n, d - 1) : BackValid(s, G)} }
+  IN {r \in All : \A i \in 1..d : r.q[i] > 0}
+
 ModelRecord(s, b) ==
   LET cls == ClassOf(s, b)
       pc == PoissonCorners(s, b)
